@@ -5,6 +5,7 @@ import (
 	"encoding/json"
 	"fmt"
 	"io"
+	"strings"
 	"testing"
 
 	kmip "github.com/ovh/kmip-go"
@@ -105,11 +106,29 @@ func c07Run(c c07Case) (sig string, err error) {
 	rd := &planReader{data: stream, plan: c.Plan, eofWith: c.EOFWith}
 	st := ttlv.NewStream(rd, c.Max)
 	off := 0
+	// every message handed out must remain what was sent while the stream goes on receiving
+	var kept []ttlv.Value
+	var keptWant []*ttlvref.Node
+	recheck := func() (string, error) {
+		for i := range kept {
+			got, ok := gen.FromValue(kept[i])
+			if !ok {
+				return "returned-message-changed-later", fmt.Errorf("message %d no longer holds TTLV values after later Recv calls", i)
+			}
+			if d := ttlvref.Diff(keptWant[i], got); d != "" {
+				return "returned-message-changed-later", fmt.Errorf("message %d was returned correctly but changed after later Recv calls on the same stream: %s", i, d)
+			}
+		}
+		return "", nil
+	}
 	for i, m := range msgs {
 		var v ttlv.Value
 		before := rd.pos
 		rd.maxReq = 0
 		rerr := safely(func() error { return st.Recv(&v) })
+		if rerr != nil && strings.HasPrefix(rerr.Error(), "panic:") {
+			return "recv-panics", fmt.Errorf("Recv of message %d panicked instead of returning a message or an error: %w", i, rerr)
+		}
 		end := off + len(m)
 		tooBig := c.Max > 0 && len(m) > c.Max
 		complete := end <= len(stream)
@@ -121,12 +140,12 @@ func c07Run(c c07Case) (sig string, err error) {
 			if rd.maxReq > c.Max || rd.pos-before > c.Max {
 				return "oversize-buffered", fmt.Errorf("message %d: receiver asked for %d bytes at once / consumed %d with max %d", i, rd.maxReq, rd.pos-before, c.Max)
 			}
-			return "", nil // stream is out of sync after a rejection: stop here
+			return recheck() // stream is out of sync after a rejection: stop here
 		case !complete:
 			if rerr == nil {
 				return "truncated-yields-message", fmt.Errorf("stream ends %d bytes into message %d but Recv returned a message", len(stream)-off, i)
 			}
-			return "", nil
+			return recheck()
 		}
 		if rerr != nil {
 			return "complete-message-rejected:" + errKind(rerr), fmt.Errorf("message %d (%d bytes, stream offset %d): %w", i, len(m), off, rerr)
@@ -146,12 +165,16 @@ func c07Run(c c07Case) (sig string, err error) {
 			return "consumed-wrong-amount", fmt.Errorf("after message %d the receiver consumed %d bytes of the stream, message ends at %d", i, rd.pos, end)
 		}
 		off = end
+		kept, keptWant = append(kept, v), append(keptWant, want)
 	}
 	if c.Announce > 0 {
 		before := rd.pos
 		rd.maxReq = 0
 		var v ttlv.Value
 		rerr := safely(func() error { return st.Recv(&v) })
+		if rerr != nil && strings.HasPrefix(rerr.Error(), "panic:") {
+			return "recv-panics", fmt.Errorf("Recv panicked on a header announcing %d bytes (max %d) instead of rejecting it with an error: %w", c.Announce, c.Max, rerr)
+		}
 		total := 8 + c.Announce + (8-c.Announce%8)%8
 		if c.Max > 0 && total > int64(c.Max) {
 			if rerr == nil {
@@ -165,7 +188,7 @@ func c07Run(c c07Case) (sig string, err error) {
 		}
 	}
 	_ = full
-	return "", nil
+	return recheck()
 }
 
 // sizedMessage builds a structure message of exactly `total` bytes (total >= 16, multiple of 8).
@@ -287,7 +310,7 @@ func drawC07(rt *rapid.T) (c07Case, bool, []string) {
 func TestC07Framing(t *testing.T) {
 	const name = "TestC07Framing"
 	rec := evid.New("C07", name, "sequences of 1..5 messages (generic trees, KMIP requests, sizes 8 B..320 KiB biased around the 512-byte initial buffer and the limit) x read plans "+
-		"(1-byte, fixed small, random chunk lists spanning boundaries, fully coalesced, last bytes delivered together with io.EOF) x truncation offsets x announced lengths around max in {64,4096,1MiB}; "+
+		"(1-byte, fixed small, random chunk lists spanning boundaries, fully coalesced, last bytes delivered together with io.EOF) x truncation offsets x announced lengths around max in {64,4096,1MiB}; oracle: each message equals the sent one when returned and still does after all later Recv calls, exact consumption, clean errors (no panic); "+
 		"non-trivial = reads are split (not fully coalesced) or the case is a truncation / size-limit case; distinct by case JSON").Attach(t)
 	if rp := evid.LoadReplay(name); rp != nil {
 		var c c07Case
@@ -316,7 +339,7 @@ func TestC07Framing(t *testing.T) {
 func TestC07KmipTarget(t *testing.T) {
 	const name = "TestC07KmipTarget"
 	rec := evid.New("C07", name, "two KMIP messages back to back, received with Stream.Recv into *RequestMessage / *ResponseMessage under a random read plan; "+
-		"oracle: equal by content to the generated messages, exact consumption; non-trivial = plan splits inside the first message; distinct by bytes+plan").Attach(t)
+		"oracle: equal by content to the generated messages (the first one again after the second was received), exact consumption; non-trivial = plan splits inside the first message; distinct by bytes+plan").Attach(t)
 	rapid.Check(t, func(rt *rapid.T) {
 		m1, fresh1, _, _ := drawMessage(rt, gen.MsgOpts{})
 		m2 := gen.Request(rt, gen.MsgOpts{})
@@ -342,6 +365,10 @@ func TestC07KmipTarget(t *testing.T) {
 		}
 		if d := gen.Diff(m2, g2); d != "" || rd.pos != len(rd.data) {
 			rec.Fail(rt, name, "recv-differs", fmt.Errorf("second message: diff %q, consumed %d of %d", d, rd.pos, len(rd.data)), map[string]any{"stream": hex.EncodeToString(rd.data), "plan": plan})
+			return
+		}
+		if d := gen.Diff(m1, g1); d != "" {
+			rec.Fail(rt, name, "returned-message-changed-later", fmt.Errorf("the first message was returned correctly but changed when the second one was received: %s", d), map[string]any{"stream": hex.EncodeToString(rd.data), "plan": plan})
 		}
 	})
 }
